@@ -798,6 +798,230 @@ def r_session(rng):
             ops.append({'op': 'tell'})
     return {'kind': 'sess', 'text': text, 'hkind': rng.choice(SESS_KINDS), 'ops': ops}
 
+
+# ----------------------------------------------------------------------------- _resolve_fname recursion on real directory trees
+
+def _rt_text(ids):
+    return ''.join('>%s\nACGT\n' % i for i in ids)
+
+
+def r_rtree(rng):
+    """A small directory tree with plain files, gzip files, files whose names contain wildcard characters, archives (holding
+    sub-directories, gzip files, nested archives, members without a dot) and a file name / pattern / archive option to read."""
+    cnt = [0]
+
+    def ids():
+        out = ['s%d' % (cnt[0] + i) for i in range(rng.choice([1, 1, 2]))]
+        cnt[0] += len(out)
+        return out
+
+    def members(depth):
+        m = {}
+        for nm in rng.sample(['m.fa', 'n.fasta', 'sub/k.fa', 'sub/deep/j.fa', 'g.fa.gz', 'noext', 'in.zip', 'in.tar', 'x[2].fa'], rng.choice([1, 2, 3, 4])):
+            if nm.endswith('.gz'):
+                m[nm] = {'t': 'gz', 'ids': ids()}
+            elif nm.startswith('in.'):
+                if depth > 0:
+                    m[nm] = {'t': 'zip' if nm.endswith('zip') else 'tar', 'c': members(depth - 1)}
+            else:
+                m[nm] = {'t': 'file', 'ids': ids()}          # PENDING FIX archdir: no directory with a dot in its name
+        if not any('.' in k.rsplit('/', 1)[-1] for k in m):
+            m['only.fa'] = {'t': 'file', 'ids': ids()}
+        return m
+    d = {}
+    for nm in rng.sample(['a.fa', 'b.fa', 'c[1].fa', 'w?.fa', 'q*.fa', 'c1.fa', 'g.fa.gz', 'h.fa.gz', 'z.zip', 't.tar.gz', 'u.tgz', 'y.zip'], rng.choice([2, 3, 5, 7])):
+        if nm.endswith('.fa'):
+            d[nm] = {'t': 'file', 'ids': ids()}
+        elif nm.endswith('.gz') and not nm.endswith('.tar.gz'):
+            d[nm] = {'t': 'gz', 'ids': ids()}
+        else:
+            d[nm] = {'t': {'z.zip': 'zip', 'y.zip': 'zip', 't.tar.gz': 'gztar', 'u.tgz': 'gztar'}[nm], 'c': members(rng.choice([0, 1, 1, 2]))}
+    e = {'blob': {'t': 'zip', 'c': members(1)}, 'blob2': {'t': 'tar', 'c': members(0)}, 'gzplain': {'t': 'gz', 'ids': ids()}, 'plain': {'t': 'file', 'ids': ids()}}
+    tree = {'d': d, 'e': e}
+    k = rng.random()
+    arch = None
+    if k < 0.3:
+        arg = 'd/' + rng.choice(['*', '*.fa', '*.gz', '*.zip', '?.fa', '[ab].fa', '*.t*', 'c*', '[a-z].*', 'g*.gz', 'z*'])
+    elif k < 0.5:
+        arg = 'd/' + rng.choice(sorted(d))
+    elif k < 0.6:
+        arg = rng.choice(['**/*.fa', '*/?.zip', 'd/**/*.fa', 'nomatch*', 'd/nomatch.fa', 'e/pl*'])      # PENDING FIX archdir: no pattern matching a directory
+    elif k < 0.75:
+        arg, arch = 'd/' + rng.choice(['*.zip', '*.tgz', 'z.zip', 'y.zip', '*']), rng.choice([True, 'zip', 'gztar', 'tar'])
+    elif k < 0.9:
+        arg, arch = rng.choice(['e/blob', 'e/blob2', 'e/blob*', 'e/b*']), rng.choice(['zip', 'tar', True, 'zip'])
+    else:
+        arg, arch = rng.choice(['e/gzplain', 'e/gz*', 'e/plain', 'd/g.fa.gz', 'd/*.gz']), rng.choice(['gz', 'gz', None])
+    return {'kind': 'rtree', 'tree': tree, 'arg': arg, 'archive': arch, 'entry': rng.choice(['read', 'read', 'iter_', 'read+fmt'])}
+
+
+def _rt_materialise(tree, root):
+    """Create the files of the tree below root (archives through shutil.make_archive, gzip files through gzip)."""
+    for dname, entries in tree.items():
+        _rt_fill(entries, os.path.join(root, dname), root)
+
+
+def _rt_fill(entries, dirpath, scratch_root):
+    os.makedirs(dirpath, exist_ok=True)
+    for name, node in entries.items():
+        p = os.path.join(dirpath, name)
+        os.makedirs(os.path.dirname(p), exist_ok=True)
+        if node['t'] == 'file':
+            with open(p, 'w') as f:
+                f.write(_rt_text(node['ids']))
+        elif node['t'] == 'gz':
+            with gzip.open(p, 'wb') as f:
+                f.write(_rt_text(node['ids']).encode())
+        else:
+            stage = tempfile.mkdtemp(prefix='stage-', dir=os.path.join(scratch_root, '.stage'))
+            _rt_fill(node['c'], stage, scratch_root)
+            made = shutil.make_archive(os.path.join(stage + '-a'), node['t'], stage)
+            shutil.move(made, p)
+            shutil.rmtree(stage)
+
+
+def _rt_setup(case, d):
+    root = os.path.join(d, 'root')
+    os.makedirs(os.path.join(root, '.stage'))
+    _rt_materialise(case['tree'], root)
+    shutil.rmtree(os.path.join(root, '.stage'))
+    return root
+
+
+def _rt_oracle(case):
+    """What glob.glob (sorted) / shutil.unpack_archive / gzip.open answer for every name reachable from the argument, asked of the
+    real functions on a materialised copy of the tree; unpack directories are named <archive name>."""
+    import glob as _g
+    d = tempfile.mkdtemp(prefix='C03-rto-', dir='/tmp')
+    cwd0 = os.getcwd()
+    try:
+        root = _rt_setup(case, d)
+        os.chdir(root)
+        realdir, globs, unpacks, gunzips = {}, {}, [], {}
+
+        def real(n):
+            if n.startswith('<'):
+                depth = 0
+                for j, ch in enumerate(n):
+                    depth += (ch == '<') - (ch == '>')
+                    if depth == 0:
+                        return realdir[n[1:j]] + n[j + 1:]
+            return n
+
+        def abstract(p):
+            for a, rd in sorted(realdir.items(), key=lambda kv: -len(kv[1])):
+                if p.startswith(rd + '/') or p == rd:
+                    return '<%s>%s' % (a, p[len(rd):])
+            return p
+        fmts = [None, 'zip', 'tar', 'gztar'] + ([case['archive']] if isinstance(case['archive'], str) and case['archive'] not in ('zip', 'tar', 'gztar', 'gz') else [])
+        todo, seen = [case['arg']], set()
+        while todo:
+            n = todo.pop(0)
+            if n in seen:
+                continue
+            seen.add(n)
+            if _g.has_magic(n):
+                res = [abstract(x) for x in sorted(_g.glob(real(n), recursive=True))]
+                globs[n] = res
+                todo += res
+            rp = real(n)
+            if os.path.isfile(rp):
+                for fmt in fmts:
+                    tmp = tempfile.mkdtemp(prefix='unp-', dir=d)
+                    try:
+                        shutil.unpack_archive(rp, tmp, fmt)
+                    except Exception:
+                        shutil.rmtree(tmp, ignore_errors=True)
+                        continue
+                    if n in realdir:
+                        shutil.rmtree(tmp, ignore_errors=True)
+                    else:
+                        realdir[n] = tmp
+                    unpacks.append((n, fmt, '<%s>' % n))
+                    todo.append('<%s>/**/*.*' % n)
+                try:
+                    with gzip.open(rp) as f:
+                        gunzips[n] = f.read().decode('latin-1')
+                except Exception:
+                    pass
+        return globs, unpacks, gunzips
+    finally:
+        os.chdir(cwd0)
+        shutil.rmtree(d, ignore_errors=True)
+
+
+def _rt_node(tree, name):
+    """The node of the tree an abstract name (<archive>/member nesting) denotes, or None."""
+    if name.startswith('<'):
+        depth = 0
+        for j, ch in enumerate(name):
+            depth += (ch == '<') - (ch == '>')
+            if depth == 0:
+                arch = _rt_node(tree, name[1:j])
+                return (arch or {}).get('c', {}).get(name[j + 2:])
+    dname, _, rest = name.partition('/')
+    return tree.get(dname, {}).get(rest)
+
+
+def _rt_leaf_ids(case, leaf):
+    if leaf[0] == 'data':
+        return [l[1:] for l in leaf[1].split('\n') if l.startswith('>')]
+    if leaf[0] == 'file':
+        node = _rt_node(case['tree'], leaf[1])
+        return list(node['ids']) if node and node['t'] == 'file' else ['<%s is no plain file>' % leaf[1]]
+    return ['<%s>' % leaf[0]]
+
+
+def _rt_readable(x, n, a):
+    """Can the directory entry x (node n) be read with the archive option a, by the documented interface?"""
+    isarch = x.endswith(('.zip', '.tgz', '.tar.gz'))
+    if n['t'] == 'file':
+        return a is None and not isarch and not x.endswith('.gz')
+    if n['t'] == 'gz':
+        return a == 'gz' or (a is None and x.endswith('.gz'))
+    return isarch if a in (None, True) else a == n['t']
+
+
+def _rt_all_ids(node):
+    """Every sequence reachable in a node: archives hold what their members with a dot in the name hold."""
+    if node['t'] in ('file', 'gz'):
+        return list(node['ids'])
+    out = []
+    for name in sorted(node['c']):
+        if '.' in name.rsplit('/', 1)[-1]:
+            out += _rt_all_ids(node['c'][name])
+    return out
+
+
+def impl_rtree(case):
+    import sugar, glob as _g
+    from unittest import mock
+    d = tempfile.mkdtemp(prefix='C03-rt-', dir='/tmp')
+    priv = os.path.join(d, 'tmp')
+    os.makedirs(priv)
+    cwd0, old = os.getcwd(), tempfile.tempdir
+    real_glob = _g.glob
+    try:
+        root = _rt_setup(case, d)
+        os.chdir(root)
+        tempfile.tempdir = priv
+        kw = {} if case['archive'] is None else {'archive': case['archive']}
+        with mock.patch.object(_g, 'glob', lambda *a, **k: sorted(real_glob(*a, **k))), mock.patch.object(sys, 'stdin', io.StringIO('')):
+            if case['entry'] == 'iter_':
+                seqs = list(sugar.iter_(case['arg'], **kw))
+            elif case['entry'] == 'read+fmt':
+                seqs = sugar.read(case['arg'], 'fasta', **kw)
+            else:
+                seqs = sugar.read(case['arg'], **kw)
+        out = [s.id for s in seqs]
+        if os.listdir(priv):
+            return 'FAIL: temporary directories left behind: %r' % os.listdir(priv)[:3]
+        return out
+    finally:
+        tempfile.tempdir = old
+        os.chdir(cwd0)
+        shutil.rmtree(d, ignore_errors=True)
+
 # ----------------------------------------------------------------------------- case generation
 
 HKINDS = ['bytes', 'str', 'fileb', 'filet', 'path', 'Path']
@@ -949,6 +1173,9 @@ def gen_cases(rng, tier):
         junk = rng.choice(['', '', 'JUNK\n', '>x\n'])
         cases.append({'kind': 'plan', 'what': what, 'content': junk + content, 'offset': len(junk), 'h': rng.choice(['bytes', 'str']), 'sep': sep,
                       'fmt': rng.choice([None, None, fmt, fmt.upper() if fmt else None])})
+    # --- the recursion of _resolve_fname on real directory trees
+    for _ in range(1200 if thorough else 150):
+        cases.append(r_rtree(rng))
     # --- sessions: histories of calls on one handle of seven kinds
     for _ in range(1500 if thorough else 200):
         cases.append(r_session(rng))
@@ -1550,6 +1777,8 @@ def impl_sess(case):
 
 def impl(case):
     k = case['kind']
+    if k == 'rtree':
+        return impl_rtree(case)
     if k == 'sess':
         return impl_sess(case)
     if k == 'cli':
@@ -1650,6 +1879,16 @@ def model_term(case):
         if fmt == 'infernal':
             return 'out (run_C03_render_infernal %s %s %s)' % (coq_bs(case['l0']), coq_bs(case['l1']), coq_list([coq_bs(x) for x in case['lines']]))
         return 'out (run_C03_render_hits %s %s)' % ('x%02x' % ord(case['sep']), rows_t(case['rows']))
+    if k == 'rtree':
+        globs, unpacks, gunzips = _rt_oracle(case)
+        a = case['archive']
+        arch = 'ANone' if a is None else 'ATrue' if a is True else '(AStr %s)' % coq_bs(a)
+        return 'out (run_C03_rtree %s %s %s %s %s %s)' % (
+            coq_nat(12),
+            coq_list(['(%s, %s)' % (coq_bs(k_), coq_list([coq_bs(x) for x in v])) for k_, v in sorted(globs.items())]),
+            coq_list(['(%s, (%s, Some %s))' % (coq_bs(n), coq_opt(f, coq_bs), coq_bs(t)) for n, f, t in unpacks]),
+            coq_list(['(%s, %s)' % (coq_bs(k_), coq_bs(v)) for k_, v in sorted(gunzips.items())]),
+            coq_bs(case['arg']), arch)
     if k == 'sess':
         ops = []
         for st in case['ops']:
@@ -1683,6 +1922,13 @@ def split_model(case, m):
 def agree(case, implval, modelval):
     if case['kind'] == 'sess':
         return isinstance(implval, list) and implval[:2] == modelval
+    if case['kind'] == 'rtree':
+        if isinstance(modelval, dict):
+            return isinstance(implval, dict) and modelval.get('e') == 'Error'      # any exception class; never OutOfFuel
+        exp = [i for leaf in modelval for i in _rt_leaf_ids(case, leaf)]
+        if any(i.startswith('<') for i in exp):          # the reader is handed a name that is no (plain) file: it must fail
+            return isinstance(implval, dict)
+        return isinstance(implval, list) and implval == exp
     if case['kind'] == 'resolve':
         if implval == ['returned']:
             return False
@@ -1743,6 +1989,29 @@ def spec(case, got):
             if key in seen and seen[key] != r:
                 return 'step %d (%s) answers %r, the same call answered %r before' % (i, st['op'], r, seen[key])
             seen[key] = r
+        return None
+    if k == 'rtree':
+        if isinstance(got, str):
+            return got
+        # first principles: the files the argument selects (fnmatch on the directory listing for the patterns generated here),
+        # and everything reachable in them
+        import fnmatch
+        arg, tree = case['arg'], case['tree']
+        dname, _, pat = arg.partition('/')
+        if dname in tree and '/' not in pat and '**' not in pat:
+            import glob as _g
+            sel = sorted(fnmatch.filter(tree[dname], pat)) if _g.has_magic(pat) else [pat] if pat in tree[dname] else []
+            nodes = [tree[dname][x] for x in sel]
+            a = case['archive']
+            ok_types = all(_rt_readable(x, n, a) for x, n in zip(sel, nodes))
+            if sel and ok_types:
+                exp = [i for n in nodes for i in _rt_all_ids(n)]
+                if isinstance(got, dict):
+                    return 'reading %r (archive=%r) raised %s, the selected files hold %r' % (arg, a, got['e'], exp)
+                if sorted(got) != sorted(exp):
+                    return 'reading %r (archive=%r) gave %r, the selected files hold %r' % (arg, a, got, exp)
+            if not sel and not isinstance(got, dict):
+                return 'reading %r selects no file but returned %r' % (arg, got)
         return None
     if k == 'sess':
         if isinstance(got, dict):
@@ -1855,6 +2124,8 @@ def nontrivial(case, got):
         return 'plan:%s:%s' % (case['fmt'], got[0] if isinstance(got, list) else 'exc')
     if k == 'render':
         return 'render:%s:%s' % (case['fmt'], 'long' if isinstance(got, str) and len(got) > 1000 else 'short')
+    if k == 'rtree':
+        return 'rtree:%s:%s:%s' % (case['arg'], case['archive'], case['entry'])
     if k == 'sess':
         return 'sess:%s:%s' % (case['hkind'], ','.join(sorted(set(st['op'] for st in case['ops']))))
     if k == 'cli':
@@ -1884,6 +2155,8 @@ def histkey(case, got):
         keys.append('wresolve->%s' % (got[0] if isinstance(got, list) and got else 'exc'))
     elif k == 'kw':
         keys.append('entry=' + case['entry'])
+    elif k == 'rtree':
+        keys.append('rtree->%s' % ('error' if isinstance(got, dict) else 'n=%d' % min(len(got), 6) if isinstance(got, list) else 'fail'))
     elif k == 'sess':
         keys += ['sess-kind=' + case['hkind']] + ['sess-op=' + st['op'] for st in case['ops']]
     elif k == 'cli':
@@ -2101,7 +2374,7 @@ def _viol(case, implval, why):
     return {'case': case, 'impl': implval, 'model': None, 'wf': True, 'evaluated': False, 'noshrink': True, 'spec': why}
 
 
-NO_SHRINK_KEYS = ('hkind', 'ops', 'text', 'true', 'nobj', 'w', 'origin', 'expect', 'h', 'what', 'kind', 'entry', 'ft', 'fmt', 'texts', 'handles', 'op', 't', 'kws', 'rkw', 'arch')
+NO_SHRINK_KEYS = ('tree', 'arg', 'archive', 'hkind', 'ops', 'text', 'true', 'nobj', 'w', 'origin', 'expect', 'h', 'what', 'kind', 'entry', 'ft', 'fmt', 'texts', 'handles', 'op', 't', 'kws', 'rkw', 'arch')
 
 
 def extra_checks(rng, tier, cov):
@@ -2156,7 +2429,7 @@ def extra_checks(rng, tier, cov):
     cov['transport_note'] = 'transport independence is relational testing only (partial)'
 
 
-LEVEL_TEXT = ('Machine-checked Coq theorems (45, no axioms) over an executable model of sugar._io and of the command-line converter: detect() restores the position of any '
+LEVEL_TEXT = ('Machine-checked Coq theorems (55, no axioms) over an executable model of sugar._io and of the command-line converter: detect() restores the position of any '
               'handle and equals "first accepting sniffer of the regenerated FMTS_ALL chain" on the remaining content for text and '
               'binary handles; WHOLE-CHAIN detection soundness detect(render_d x) = d, with rejection lemmas for every earlier sniffer, '
               'for FASTA / Stockholm / GFF3 (writer models), SJSON / GenBank (first-line shapes), TSV / CSV of any length incl. beyond '
@@ -2180,7 +2453,14 @@ LEVEL_TEXT = ('Machine-checked Coq theorems (45, no axioms) over an executable m
               '(session_kind_irrelevant); a Stockholm read consumes exactly one alignment and never runs past the content, so the handle '
               'stands at the next alignment (stockholm_read_consumes_one_alignment, stockholm_read_stays_inside); tied by the sess stream: '
               'histories on BytesIO / StringIO / binary and text files / NamedTemporaryFile / SpooledTemporaryFile / GzipFile, every answer '
-              'and the final position compared with the model, the same history re-run without its detect calls. Model '
+              'and the final position compared with the model, the same history re-run without its detect calls; the recursion of '
+              '_resolve_fname (pattern -> files, archive -> <tmpdir>/**/*.*, gzip, plain) over a file-system oracle: fuel monotone '
+              '(resolve_run_fuel), the four branches with the scope of the archive option (resolve_run_branches), concatenation in glob '
+              'order (resolve_run_glob_concat), every member of a flat archive read exactly once (resolve_run_flat_archive), equivalence '
+              'with the declarative reading for any nesting depth (resolve_run_sound, resolve_run_complete, resolves_deterministic), the '
+              'name decision as a first-match table stdin > URL > pattern > archive > gzip > plain (resolve_is_table, resolve_url_first), '
+              'a name found by a pattern is never expanded again (matched_name_never_globbed); tied by the rtree stream: real directory '
+              'trees with gzip files, wildcard characters in file names, nested archives, read / iter_ with every archive option. Model '
               'and code are tied on every run by differential testing of every modelled function (all reachable statements executed in '
               'the quick tier), renderer models against the real writers / readers, and histories of calls on shared state. Transport '
               'independence is relational testing only.')
@@ -2199,5 +2479,9 @@ LEVEL_NOTE = ('PARTIAL / TESTED ONLY: (1) transport independence (path, Path, ha
               'sugar/_io/tab/core.py is modelled but not an anchored file; scripts.py: the two `except BrokenPipeError: pass` lines of '
               'convert / convertf are not reached. (6) the command-line model takes the detected input format and the number of objects '
               'in the file as inputs (tied by the detect streams); which plugin functions exist (read_/iter_/write_/append_) comes from '
-              'the regenerated SUPPORT tables; -f naming a format the file is not in is outside the domain. All theorems closed under the global context (no axioms).')
+              'the regenerated SUPPORT tables; -f naming a format the file is not in is outside the domain. (7) the recursion model takes what '
+              'glob / unpack_archive / gzip answer as an oracle; the rtree stream asks the real functions on a copy of the generated tree '
+              'and sorts glob results; download branches are leaves. OPEN (genuine defect, pending fix archdir): an archive or pattern '
+              'holding a DIRECTORY with a dot in its name (v1.0/seqs.fa) raises IsADirectoryError -- such trees are kept out of the rtree '
+              'stream, see build/pending_fixes/C03_archdir.{diff,txt}. All theorems closed under the global context (no axioms).')
 TECHNIQUE = 'Coq proof over an executable model + regenerated tables + differential correspondence + relational transport testing'
